@@ -63,6 +63,11 @@ CLAIMED["C17"]=dict(
    text="Exploration: all well-scoped main-thread sequences of length <= 4 (quick) / <= 6 (thorough) over a 9-operation alphabet in 4 scenarios, plus 6k / 200k generated sequences of up to 24 / 40 operations with up to 3 lazies (constant, failing, self-dependent) and 3 green threads. Found and fixed: forces of a failed lazy from another thread hung; resuming a thread that died re-entered the failed call.",
    note="thunks never yield; only the main thread spawns/resumes; hang = no answer and no CPU consumed for 3 s in a workload without sleeps or I/O",
    ref="6 C17")
+CLAIMED["C19"]=dict(
+   technique="model-based property-based testing: generated programs over std.map / std.list / std.array / std.string / std.json / #[derive] with literal inputs; expected results computed by Rust reference models (BTreeMap, Vec/slice::sort, str, serde_json, structural equality, a Show renderer) at generation time",
+   text="Exploration: 40k (quick) / 600k (thorough) programs over 7 sub-models: map operation sequences with colliding Int/String keys, list and array functions incl. out-of-range index/slice (must be errors), string functions at arbitrary byte indices over multi-byte text, JSON round trips of generated record/variant types against serde_json, derived Eq/Show on generated algebraic types with pairs differing in the last leaf. Found and fixed: floats changed by one ulp in a JSON round trip.",
+   note="inputs are program literals (marshalling is C11's); JSON variants are restricted to what the untagged derived encoding can round-trip; sort stability is not asserted",
+   ref="6 C19")
 NOT_YET = {}
 def main():
     props=[json.loads(l) for l in open('/verif/properties.jsonl')]
